@@ -2,6 +2,8 @@
 // Same line protocol as lean/Driver/C12.lean (constructor lines are self-contained, follow-up lines work on the state).
 // argv[1]: uint | real | sparse | blob  (input element type; blob = user struct in std::vector batches)
 // argv[2]: cls | reg                    (label type: unsigned int class labels | RealVector regression labels)
+// Three binaries are built from this file: c12 (class labels), c12reg (-DC12_REG: regression labels) and c12dbg
+// (-UNDEBUG: the SIZE_CHECK / SHARK_ASSERT / RANGE_CHECK assertions of a debug build are active).
 // The RNG-dependent functions are seeded from the op line; what the real code drew is *observed* from the result and
 // printed as obs=[…] (tools/obsfeed.py feeds it to the Lean driver, which checks it against the model's relation).
 // Independent oracle: disjointness / cover / complement / pairing / fold sizes / class balance / batch layout / requested
@@ -244,7 +246,13 @@ struct H{
 	}
 
 	// the two CVFolds constructors on a weighted dataset
-	template<class F, class W> static W wsubset(F const&, W const& w, Ix const& ix, std::true_type){ return w.indexedSubset(ix); }
+	// CVFolds<WDS>::training(i) / validation(i) are `m_dataset.indexedSubset(…FoldIndices(i))`; they do not compile as long as
+	// BaseWeightedDataset::indexedSubset returns the base class (finding F-C12-1): then their body is executed here instead
+	template<class FoldsT> static typename FoldsT::DatasetType wpart(FoldsT const& f, std::size_t i, bool train, Ix const&, std::true_type){
+		return train ? f.training(i) : f.validation(i);
+	}
+	template<class FoldsT> static decltype(std::declval<WDS const&>().indexedSubset(std::declval<Ix const&>()))
+	wpart(FoldsT const& f, std::size_t, bool, Ix const& ix, std::false_type){ return f.dataset().indexedSubset(ix); }
 	std::string weighted(bool fromStarts, Ix const& starts, std::vector<Ix> const& sets){
 		DS const& d = cur.dataset();
 		WDS w(d, 1.0);
@@ -259,10 +267,8 @@ struct H{
 		for(std::size_t b = 0; b != d.numberOfBatches(); ++b) flatBatch(d.batch(b), batches[b]);
 		for(std::size_t i = 0; i != folds.size(); ++i){
 			Ix v = folds.validationFoldIndices(i), t = folds.trainingFoldIndices(i);
-			// CVFolds<WDS>::training(i) is `m_dataset.indexedSubset(trainingFoldIndices(i))`; it does not compile as long as
-			// BaseWeightedDataset::indexedSubset returns the base class (finding F-C12-1), so the body is executed here
-			auto val = folds.dataset().indexedSubset(v);
-			auto train = folds.dataset().indexedSubset(t);
+			auto val = wpart(folds, i, false, v, SubsetKeepsType<WDS>());
+			auto train = wpart(folds, i, true, t, SubsetKeepsType<WDS>());
 			os << " F" << i << "{v=" << showNats(v) << " t=" << showNats(t) << " val=" << showDS(val.data()) << " train=" << showDS(train.data()) << "}";
 			Flat fv = flat(val.data()), ft = flat(train.data());
 			checkFold(i, v, t, batches, fv, ft);
@@ -355,6 +361,7 @@ struct H{
 			prev = cur; havePrev = true; cur = f;
 			return "ok " + out;
 		}
+		if(op == "debug") return a.empty() ? "ok" : "undefined";      // marks cases for the binary built without NDEBUG
 		if(op == "wprobe"){
 			if(!SubsetKeepsType<WDS>::value) fail("weighted-folds-training-does-not-compile");
 			return "ok";
